@@ -621,6 +621,8 @@ impl<R: RefCounter, PR: PathRefCounter, H: Header> Memory<R, PR, H> {
 
   #[cfg(all(feature = "memmap", not(target_family = "wasm")))]
   pub(crate) fn map_anon(opts: Options) -> std::io::Result<Self> {
+    check_alignment(&opts)?;
+
     opts.to_mmap_options().map_anon().and_then(|mut mmap| {
       let map_cap = mmap.len();
 
@@ -1097,11 +1099,25 @@ impl<R: RefCounter, PR: PathRefCounter, H: Header> Memory<R, PR, H> {
   }
 }
 
+/// A memory map is aligned to the page size and no more, so a larger maximum alignment cannot be honoured.
+#[cfg(all(feature = "memmap", not(target_family = "wasm")))]
+#[inline]
+fn check_alignment(opts: &Options) -> std::io::Result<()> {
+  if opts.maximum_alignment() > *PAGE_SIZE as usize {
+    return Err(invalid_input(
+      "the maximum alignment of a memory map backed ARENA cannot be larger than the page size",
+    ));
+  }
+  Ok(())
+}
+
 /// The mapping starts at `offset` bytes from a page boundary, so the base address of the ARENA is
 /// only as aligned as the offset: the header and every aligned allocation rely on it.
 #[cfg(all(feature = "memmap", not(target_family = "wasm")))]
 #[inline]
 fn check_offset<H>(opts: &Options) -> std::io::Result<()> {
+  check_alignment(opts)?;
+
   let alignment = opts.maximum_alignment().max(mem::align_of::<H>()) as u64;
   if opts.offset % alignment != 0 {
     return Err(invalid_input(
